@@ -164,6 +164,14 @@ HAND = [
     "1100 5 1000:f 100:f 1100:f 50:f | U3:l | O C D0 D1 K W",
     "1100 5 1000:f 100:f 1100:f 50:f | U0:l | O C K",
     "1100 5 2200:f | | O C s C s C x O C w",
+    # an empty file strictly inside a piece (neither neighbour ends on a piece boundary)
+    "2048 2 3000:f 0:f 3000:f | | O C W",
+    "2048 2 100:f 0:f 0:f 5000:f | M3 | O C W",
+    "1100 6 1500:f 0:f 700:f 0:f 2500:f | T4:2499 | O C w",
+    # unreadable (EISDIR / ELOOP / ENOTDIR) non-first file while earlier pieces are still outstanding, results arriving late
+    "1100 5 3300:f 1100:f 1100:f | U1:d | O C K D2 D0 D1 K",
+    "1100 5 3300:f 1100:f 1100:f | U1:l | O C w",
+    "1100 5 3300:f 1100:f 1100:f | U2:n | O C D0 K D1 D2 D3",
     # a timer left over from a failed check must not confirm a later quick check
     "1100 1 1100:f 1100:f | M0 U1:l | O C Q K C",
     "1100 1 1100:f 1100:f | M0 U1:l | O C Q K S C W",
@@ -241,7 +249,7 @@ def gen(seed, tier):
     stats = {k: 0 for k in ["file_missing", "file_nodir", "file_truncated", "file_extended", "file_unreadable",
                             "file_intact", "byte_flips", "bad_expected", "pat_full", "pat_full_free",
                             "pat_stop_after_k", "pat_close_after_k", "pat_quick", "pat_stop_twice", "pat_random",
-                            "exhaustive_small", "corpus", "hand", "stop_every_k", "zero_tail_truncation", "race_stop_close_remove"]}
+                            "exhaustive_small", "corpus", "hand", "stop_every_k", "zero_tail_truncation", "race_stop_close_remove", "giant_beyond_4GiB"]}
     cases = []
     cdir = os.path.join(os.path.dirname(os.path.dirname(os.path.abspath(__file__))), "corpus", "C09")
     for f in sorted(glob.glob(os.path.join(cdir, "*.case"))):
@@ -269,6 +277,10 @@ def gen(seed, tier):
             ds = ["D%d" % i for i in order[:k]]
             end = r.choice([["S", "C", "W"], ["X", "O", "C", "W"], ["s", "C", "w"], ["x"]])
             cases.append(fmt(pl, sd, files, pert, ["O", "C"] + ds + end)); stats["stop_every_k"] += 1
+    # torrents larger than 4 GiB (sparse: ~6 MiB on disk), oracle only
+    for v in (1, 2):
+        for sd in ((3,) if tier == "quick" else (3, 4, 5)):
+            cases.append("G %d %d" % (sd, v)); stats["giant_beyond_4GiB"] += 1
     cases += zero_tail_cases(r, stats, 60 if tier == "quick" else 600)
     cases += race_cases(r, stats, 400 if tier == "quick" else 4000)
     if tier != "quick":
@@ -294,10 +306,29 @@ def oracle(case, full):
     """Property C09 evaluated on ONE implementation output line -> list of (class, text)."""
     if full.startswith("ERR:internal") and "HashTorrent::start() call failed" in full:
         return [("recheck-stale-delay-timer", "internal_error from hash_check: a completion/error timer left over from an earlier check fired during a later one: " + full[:200])]
+    if full.startswith("HANG"):
+        return [("hang", "the check did not terminate: no answer within the per-case watchdog (main thread spinning or blocked): " + full[:120])]
+    if full.startswith("ERR:internal"):
+        return [("internal-error", "the library threw internal_error on a legal call sequence: " + full[:200])]
     if full.startswith("CRASH") or full.startswith("ERR:") or full.startswith("MISSING"):
-        return [("crash", "the library crashed, threw internal_error or hung: " + full[:200])]
+        return [("crash", "the library crashed: " + full[:200])]
     if full.startswith("REJECT") or full.startswith("BADCASE"):
         return []
+    if case.startswith("G "):
+        f = dict(x.split("=", 1) for x in full.replace(" || ", " ").split() if "=" in x)
+        got = set() if f.get("set", "-") == "-" else set(f["set"].split(","))
+        exp = set(f.get("expect", "").split(",")) - {""}
+        bad = []
+        if got - exp:
+            bad.append(("wrong-present", "torrent beyond 4 GiB: pieces %s reported present but their bytes are not on disk (only %s are valid)" % (
+                ",".join(sorted(got - exp, key=int)[:6]), ",".join(sorted(exp, key=int)))))
+        elif exp - got:
+            bad.append(("not-exact", "torrent beyond 4 GiB: valid pieces %s reported absent" % ",".join(sorted(exp - got, key=int)[:6])))
+        if f.get("a_size") != "4194304":
+            bad.append(("file-altered", "a was 4194304 bytes before the check and is %s after" % f.get("a_size")))
+        if f.get("mb") != "0" or f.get("mu") != "0":
+            bad.append(("leak-after-close", "after close: %s blocks / %s bytes still accounted" % (f.get("mb"), f.get("mu"))))
+        return bad
     parts = full.split(" || ")
     ex = {}
     for p in parts[1:]:
